@@ -179,6 +179,10 @@ pub fn parse_conditional(
             *line_index += 1;
             let rest = else_content.trim();
             if !rest.is_empty() {
+                // Every branch of a multi-line block starts with a line break.
+                if body_line.had_newline {
+                    when_false.push(Node::Newline);
+                }
                 when_false.extend(tokenize_inline_content(rest)?);
             }
             if body_line.had_newline {
@@ -311,6 +315,9 @@ pub fn parse_multi_branch_conditional(
             let header = header.trim_start();
             if let Some(rest) = header.strip_prefix("else:") {
                 current_condition = None;
+                if line.had_newline {
+                    current_nodes.push(Node::Newline);
+                }
                 if !rest.trim().is_empty() {
                     current_nodes.extend(tokenize_inline_content(rest.trim())?);
                     if line.had_newline {
@@ -358,6 +365,9 @@ pub fn parse_multi_branch_conditional(
                 None => {
                     // Bare default branch: `- content` with no colon — treat as else
                     current_condition = None;
+                    if line.had_newline {
+                        current_nodes.push(Node::Newline);
+                    }
                     if !header.trim().is_empty() {
                         current_nodes.extend(tokenize_inline_content(header.trim())?);
                         if line.had_newline {
@@ -369,6 +379,10 @@ pub fn parse_multi_branch_conditional(
                 }
             };
             current_condition = Some(parse_condition(condition.trim())?);
+            // Every branch of a multi-line block starts with a line break.
+            if line.had_newline {
+                current_nodes.push(Node::Newline);
+            }
             let rest_trimmed = rest.trim();
             if !rest_trimmed.is_empty() {
                 if rest_trimmed.starts_with('*') || rest_trimmed.starts_with('+') {
@@ -496,6 +510,9 @@ fn parse_switch_conditional(
             let header = header.trim_start();
             if let Some(rest) = header.strip_prefix("else:") {
                 current_case = None; // else branch
+                if line.had_newline {
+                    current_nodes.push(Node::Newline);
+                }
                 let rest = rest.trim();
                 if !rest.is_empty() {
                     let inline_line = Line {
@@ -519,6 +536,9 @@ fn parse_switch_conditional(
                 None => {
                     // Bare default branch `- content` with no colon
                     current_case = None;
+                    if line.had_newline {
+                        current_nodes.push(Node::Newline);
+                    }
                     if !header.trim().is_empty() {
                         let inline_line = Line {
                             content: header.trim(),
@@ -537,6 +557,10 @@ fn parse_switch_conditional(
                 }
             };
             current_case = Some(parse_expression(case_text.trim())?);
+            // Every branch of a multi-line block starts with a line break.
+            if line.had_newline {
+                current_nodes.push(Node::Newline);
+            }
             let rest = rest.trim();
             if !rest.is_empty() {
                 let inline_line = Line {
